@@ -1,6 +1,8 @@
 """C01 - bottleneck distance equals the true min-max matching cost."""
 import math
 
+import os
+
 import numpy as np
 from hypothesis import strategies as st
 
@@ -48,7 +50,7 @@ def check_value_small(case, ctx):
 
 
 s_value_small = st.fixed_dictionaries({
-    "fam": small_pairs(5), "ea": st.sampled_from(EMPTY_FORMS), "eb": st.sampled_from(EMPTY_FORMS),
+    "fam": small_pairs(6 if os.environ.get("PV_TIER") == "thorough" else 5), "ea": st.sampled_from(EMPTY_FORMS), "eb": st.sampled_from(EMPTY_FORMS),
     "as_list": st.booleans()})
 
 
@@ -143,7 +145,7 @@ def check_near_identical(case, ctx):
 CLAUSES = [
     Clause("value_small", s_value_small, check_value_small, quick=6400, thorough=80000, fuzz=True,
            floors={"mixed_optimum": 0.05, "tie": 0.05},
-           rule="0..5 points each, all empty forms, array or nested-list input; oracle = minimum over ALL partial matchings; "
+           rule="0..5 points each (0..6 in the thorough tier), all empty forms, array or nested-list input; oracle = minimum over ALL partial matchings; "
                 "non-trivial = both non-empty and (an optimal matching mixes cross and diagonal pairs, or two candidate costs tie "
                 "exactly / within 2 ulp, or a point is repeated)"),
     Clause("value_medium", s_value_medium, check_value_medium, quick=960, thorough=8000,
@@ -159,6 +161,8 @@ CLAUSES = [
     Clause("lattice_slice", cases=lambda: lattice_slice_cases(2, 4), check=check_slice,
            rule="EXHAUSTIVE: all 23409 ordered pairs of multisets of <= 2 points on the 16-point lattice {(b,b+l): b,l in 0..3}; "
                 "exact equality with the definition; non-trivial as for value_small"),
+    Clause("lattice_slice_3", cases=lambda: lattice_slice_cases(3, 3), check=check_slice, thorough_only=True,
+           rule="EXHAUSTIVE, thorough tier only: all 48400 ordered pairs of multisets of <= 3 points on the 9-point lattice {(b,b+l): b,l in 0..2}"),
     Clause("cross_hashseed", st.fixed_dictionaries({"fam": diagram_family(count=2, min_size=1, max_size=12, dup_bias=True)}),
            check_cross, quick=60, thorough=600, cross_shard=True,
            rule="the SAME generated cases are evaluated in all 16 shard processes (PYTHONHASHSEED 0..15); results must be "
